@@ -16,6 +16,7 @@ pub fn harnesses() -> Vec<Harness> {
         Harness { name: "c08_farthest", property: "C08", f: c08_farthest, about: "set_farthest_on_full drops everything farther than the new farthest and never widens" },
         Harness { name: "c08_progress", property: "C08", f: c08_progress, about: "bounded liveness: an in-range key advertised every round by a responsive holder is fetched within 2 rounds (4 keys, limit 3)" },
         Harness { name: "c09_range_follows", property: "C09", f: c09_range_follows, about: "the fetcher filters advertisements with the responsible range currently in force, whether it grew or shrank since it was first set" },
+        Harness { name: "c09_two_versions_both_fetched", property: "C09", f: c09_two_versions_both_fetched, about: "two neighbours advertise different versions of a key that is not held while the fetcher is saturated; as slots free up one at a time each neighbour is asked for its version" },
         Harness { name: "c09_divergent_version", property: "C09", f: c09_divergent_version, about: "a key held locally with version T1 and advertised with version T2 != T1 is scheduled or queued" },
     ]
 }
@@ -68,6 +69,27 @@ fn og_keys(f: &ReplicationFetcher) -> Vec<(RecordKey, RecordType)> {
     let mut v: Vec<_> = f.on_going_fetches.keys().cloned().collect();
     v.sort_by_key(|(k, t)| (k.to_vec(), tname(t)));
     v
+}
+/// frame condition: a fetch that is in flight keeps the holder it was requested from and its deadline
+/// until it completes or expires (nothing but completion / expiry may touch it)
+type OgSnap = Vec<((RecordKey, RecordType), (PeerId, Instant))>;
+fn og_snapshot(f: &ReplicationFetcher) -> OgSnap {
+    f.on_going_fetches.iter().map(|(k, v)| (k.clone(), v.clone())).collect()
+}
+fn check_og_frame(tag: &str, before: &OgSnap, f: &ReplicationFetcher) {
+    check_og_frame_except(tag, before, f, None)
+}
+/// `completed`: fetches of this key were legitimately ended by the call (and may have been started again)
+fn check_og_frame_except(tag: &str, before: &OgSnap, f: &ReplicationFetcher, completed: Option<&RecordKey>) {
+    for (k, (h0, d0)) in before {
+        if Some(&k.0) == completed {
+            continue;
+        }
+        if let Some((h1, d1)) = f.on_going_fetches.get(k) {
+            check_bool(&format!("{tag}:in_flight_fetch_keeps_its_holder"), h0 == h1);
+            check(&format!("{tag}:in_flight_fetch_keeps_its_deadline"), d0.0.seq(d1.0).0);
+        }
+    }
 }
 fn pend_keys(f: &ReplicationFetcher) -> Vec<(RecordKey, RecordType, PeerId)> {
     let mut v: Vec<_> = f.to_be_fetched.keys().cloned().collect();
@@ -148,7 +170,9 @@ fn c08_add_multi() {
     note(format!("n_og={n_og} pre={pre} n_in={n_in} range={} farthest={} held0={held0}", range.is_some(), farthest.is_some()));
     let og_before = og_keys(&fx.f);
     let adv: Vec<(NetworkAddress, RecordType)> = incoming.iter().map(|(k, t)| (NetworkAddress::from_record_key(k), t.clone())).collect();
+    let og_snap = og_snapshot(&fx.f);
     let out = fx.f.add_keys(holder, adv, &local);
+    check_og_frame("add_multi", &og_snap, &fx.f);
     let og_after = og_keys(&fx.f);
     let new_og: Vec<_> = og_after.iter().filter(|e| !og_before.contains(e)).cloned().collect();
     // D: what is returned are exactly the newly started fetches (nothing already in flight is started again)
@@ -264,7 +288,9 @@ fn c08_add_single() {
     }
     note(format!("n_og={n_og} pre={pre} range={} farthest={} held={held}", range.is_some(), farthest.is_some()));
     let og_before = og_keys(&fx.f);
+    let og_snap = og_snapshot(&fx.f);
     let out = fx.f.add_keys(peer(1), vec![(NetworkAddress::from_record_key(&k), t.clone())], &local);
+    check_og_frame("add_single", &og_snap, &fx.f);
     let og_after = og_keys(&fx.f);
     let started = out.iter().any(|(_, kk)| *kk == k);
     let in_flight_before = og_before.iter().any(|(kk, tt)| *kk == k && *tt == t);
@@ -389,7 +415,9 @@ fn c08_complete() {
     let (ck, ct) = if which == 0 { (key(0), ty[1].clone()) } else { (key(1), ty[1].clone()) };
     note(format!("early={early} completes=({}, {})", key_name(&ck), tname(&ct)));
     let og_before = og_keys(&fx.f);
+    let og_snap = og_snapshot(&fx.f);
     let out = if early { fx.f.notify_fetch_early_completed(ck.clone(), ct.clone()) } else { fx.f.notify_about_new_put(ck.clone(), ct.clone()) };
+    check_og_frame_except("complete", &og_snap, &fx.f, Some(&ck));
     let og_after = og_keys(&fx.f);
     cover(if early { "early" } else { "arrival" });
     // the completed version leaves the in-flight set and the queue
@@ -443,7 +471,9 @@ fn c08_batch_dedupe() {
     }
     note(format!("n_og={n_og} queued={}", queued.len()));
     let og_before = og_keys(&fx.f);
+    let og_snap = og_snapshot(&fx.f);
     let out = fx.f.next_keys_to_fetch();
+    check_og_frame("dedupe", &og_snap, &fx.f);
     let og_after = og_keys(&fx.f);
     let new_og: Vec<_> = og_after.iter().filter(|e| !og_before.contains(e)).cloned().collect();
     cover("ran");
@@ -576,6 +606,44 @@ fn c08_progress() {
 }
 
 // ------------------------------------------------------------------ C09 (c)
+
+fn c09_two_versions_both_fetched() {
+    set_clock_frozen(true);
+    let mut fx = new_fetcher();
+    let now = Instant::now().0;
+    let limit = MAX_PARALLEL_FETCH;
+    let ty = types();
+    // saturated: `limit` fetches of unrelated keys in flight, none of them about to expire
+    for i in 0..limit {
+        let d = future_deadline(&format!("og_deadline{i}"), now);
+        fx.f.on_going_fetches.insert((key(10 + i as u8), RecordType::Chunk), (peer(9), d));
+    }
+    let k = key(0);
+    let local: HashMap<RecordKey, (NetworkAddress, RecordType)> = HashMap::new();
+    // neighbour A holds version T1 of k, neighbour B version T2 (and both a common chunk); either may come first
+    let a_first = choice(2) == 0;
+    let lists = [(peer(1), ty[1].clone()), (peer(2), ty[2].clone())];
+    let order: Vec<usize> = if a_first { vec![0, 1] } else { vec![1, 0] };
+    let mut asked: Vec<(PeerId, RecordKey)> = vec![];
+    for i in order {
+        let (h, t) = lists[i].clone();
+        let adv = vec![(NetworkAddress::from_record_key(&k), t), (NetworkAddress::from_record_key(&key(1)), ty[0].clone())];
+        asked.extend(fx.f.add_keys(h, adv, &local));
+    }
+    check_bool("two_versions:nothing_started_while_saturated", asked.is_empty());
+    // slots free up one at a time: an unrelated fetch completes, the fetcher hands out what comes next
+    let rounds = limit.min(3);
+    for i in 0..rounds {
+        asked.extend(fx.f.notify_about_new_put(key(10 + i as u8), RecordType::Chunk));
+    }
+    note(format!("a_first={a_first} rounds={rounds} asked={:?}", asked.iter().map(|(p, kk)| (p.to_bytes()[7], key_name(kk))).collect::<Vec<_>>()));
+    cover("ran");
+    let a_asked = asked.iter().any(|(p, kk)| *p == peer(1) && *kk == k);
+    let b_asked = asked.iter().any(|(p, kk)| *p == peer(2) && *kk == k);
+    // both versions are needed for the merge: each neighbour is asked for the version it advertised
+    check_bool("two_versions:each_advertised_version_is_requested_from_its_holder", a_asked && b_asked);
+    check_bool("two_versions:common_chunk_requested_once", asked.iter().filter(|(_, kk)| *kk == key(1)).count() == 1);
+}
 
 fn c09_divergent_version() {
     set_clock_frozen(true);
